@@ -30,10 +30,12 @@ import (
 
 func init() { register("C15", checkC15) }
 
+// closureOf: the function a top-level function of the package starts with its `go` statement,
+// whether an anonymous closure or a named function.
 func closureOf(ctx *Ctx, pkg, parent string) *ssa.Function {
-	for _, f := range ctx.srcFuncs(pkg) {
-		if f.Parent() != nil && f.Parent().Name() == parent && f.Parent().Parent() == nil {
-			return f
+	for _, gs := range goSites(ctx) {
+		if gs.in.Parent() == nil && gs.in.Name() == parent && gs.callee != nil && gs.in.Pkg != nil && strings.HasSuffix(gs.in.Pkg.Pkg.Path(), "/"+pkg) {
+			return gs.callee
 		}
 	}
 	return nil
@@ -47,7 +49,7 @@ func checkC15(ctx *Ctx, r *Report, tier string) {
 	checkDXF(ctx, r)
 	checkSVG(ctx, r)
 	r.floor("X1", 5)
-	r.floor("X2", 5)
+	r.floor("X2", 3)
 	r.floor("X3", 6)
 }
 
@@ -80,11 +82,14 @@ func check3MF(ctx *Ctx, r *Report) {
 			ok = false
 			continue
 		}
-		// receiver: a captured builder (free variable), not something made in the loop
-		if s, isSym := e.Args[0].(*Sym); !isSym || !strings.HasPrefix(s.Path, "*") {
-			if tup, isT := e.Args[0].(*Tuple); !isT || !strings.HasPrefix(elemPath(tup.Elems[0]), "*") {
-				recvOK = false
-			}
+		// receiver: a builder that exists before the goroutine starts (captured or passed in),
+		// not an object made inside the goroutine
+		rv := e.Args[0]
+		if tup, isT := rv.(*Tuple); isT && len(tup.Elems) == 2 {
+			rv = tup.Elems[0]
+		}
+		if _, isSym := rv.(*Sym); !isSym {
+			recvOK = false
 		}
 		m := map[string]*Term{}
 		leafTerms("", e.Args[1], m)
@@ -150,12 +155,35 @@ func check3MF(ctx *Ctx, r *Report) {
 	r.check("X1", "write3MF|winding-preserved", g.Pos(), okTri, "Triangle{V1,V2,V3} = indices of t[0], t[1], t[2];"+tdetail)
 	// outer: one builder, one object, one item, units untouched
 	nB, nObj, nItem, unitStore := 0, 0, 0, false
-	for _, fn := range []*ssa.Function{outer, g} {
+	// (module helpers the writer and its goroutine call count as part of them)
+	inGoroutine := map[*ssa.Function]bool{}
+	var scan []*ssa.Function
+	var addFn func(fn *ssa.Function, gor bool)
+	addFn = func(fn *ssa.Function, gor bool) {
+		for _, have := range scan {
+			if have == fn {
+				return
+			}
+		}
+		scan = append(scan, fn)
+		inGoroutine[fn] = gor
+		allInstrs(fn, func(b *ssa.BasicBlock, ins ssa.Instruction) {
+			if c, ok := ins.(ssa.CallInstruction); ok {
+				if f := c.Common().StaticCallee(); f != nil && inModule(f) && len(f.Blocks) > 0 && f != g && f != outer {
+					addFn(f, gor)
+				}
+			}
+		})
+	}
+	addFn(outer, false)
+	addFn(g, true)
+	for _, fn := range scan {
+		fn := fn
 		allInstrs(fn, func(b *ssa.BasicBlock, ins ssa.Instruction) {
 			if c, ok := ins.(*ssa.Call); ok {
 				if f := c.Call.StaticCallee(); f != nil && f.Name() == "NewMeshBuilder" {
 					nB++
-					if fn == g {
+					if inGoroutine[fn] {
 						nB += 100
 					}
 				}
@@ -269,6 +297,58 @@ func checkDXF(ctx *Ctx, r *Report) {
 				okL = false
 			}
 		}
+		if len(layers) == 0 && fn.Parent() == nil {
+			// a helper that only draws (d.segments(ls)): the layer is the business of its callers,
+			// which all draw through it and are examined themselves (their evaluation inlines it)
+			callers := refsTo(ctx, fn)
+			helper := len(callers) > 0
+			for _, c := range callers {
+				if _, isCall := c.ins.(*ssa.Call); !isCall || !inModule(c.in) {
+					helper = false
+				}
+			}
+			if helper {
+				// every caller must select the layer before it draws through the helper
+				okAll := true
+				det := ""
+				for _, c := range callers {
+					cf := c.in
+					evc := newEval(ctx, "Save", "NewDXF")
+					evc.evalRoot(cf)
+					var ls []string
+					for _, e := range eventsOf(evc, ".ChangeLayer") {
+						if len(e.Args) >= 2 {
+							ls = append(ls, valKey(e.Args[1]))
+						}
+					}
+					if cf.Parent() != nil {
+						evp := newEval(ctx, "Save", "NewDXF")
+						evp.evalRoot(cf.Parent())
+						sawGo := false
+						for _, e := range evp.Events {
+							if e.Callee == "go" {
+								sawGo = true
+							}
+							if strings.HasSuffix(e.Callee, ".ChangeLayer") && !sawGo && len(e.Args) >= 2 {
+								ls = append(ls, valKey(e.Args[1]))
+							}
+						}
+					}
+					good := len(ls) >= 1
+					for _, l := range ls {
+						if l != `"Lines"` {
+							good = false
+						}
+					}
+					if !good {
+						okAll = false
+						det += fmt.Sprintf(" %s selects %v;", shortFn(cf), ls)
+					}
+				}
+				r.check("X2", shortFn(fn)+"|layer-Lines", fn.Pos(), okAll, fmt.Sprintf("drawing helper: each of its %d callers selects layer Lines before drawing;%s", len(callers), det))
+				continue
+			}
+		}
 		r.check("X2", shortFn(fn)+"|layer-Lines", fn.Pos(), okL, fmt.Sprintf("layers selected before/while drawing: %v", layers))
 	}
 	r.Counts["dxf_line_sites"] = n
@@ -293,6 +373,27 @@ func checkDXF(ctx *Ctx, r *Report) {
 	}
 }
 
+// reachesDXFLine: fn calls drawing.Line itself or through module functions it calls.
+func reachesDXFLine(fn *ssa.Function, depth int, seen map[*ssa.Function]bool) bool {
+	if fn == nil || seen[fn] || depth > 3 {
+		return false
+	}
+	seen[fn] = true
+	found := false
+	allInstrs(fn, func(b *ssa.BasicBlock, ins ssa.Instruction) {
+		if c, ok := ins.(*ssa.Call); ok {
+			if f := c.Call.StaticCallee(); f != nil {
+				if f.String() == "(*github.com/yofu/dxf/drawing.Drawing).Line" {
+					found = true
+				} else if inModule(f) && reachesDXFLine(f, depth+1, seen) {
+					found = true
+				}
+			}
+		}
+	})
+	return found
+}
+
 func minLeaves(t *Term, fn string, out map[string]bool) {
 	if t.Op == "call" && t.S == fn {
 		for _, a := range t.Args {
@@ -305,56 +406,132 @@ func minLeaves(t *Term, fn string, out map[string]bool) {
 
 func checkSVG(ctx *Ctx, r *Report) {
 	sfn := ctx.ssaFunc("render", "(*SVG).Save")
-	if sfn == nil {
-		r.undecided("X3", "SVG.Save", 0, "not found")
-	} else {
-		ev := newEval(ctx)
-		ev.evalRoot(sfn)
-		st := eventsOf(ev, "float.SVG).Start")
-		ln := eventsOf(ev, "float.SVG).Line")
-		okS := len(st) == 1
-		if okS {
-			w, _ := st[0].Args[1].(*Term)
-			h, _ := st[0].Args[2].(*Term)
-			okS = w != nil && h != nil && w.Key() == Sub(A("s.max.X"), A("s.min.X")).Key() && h.Key() == Sub(A("s.max.Y"), A("s.min.Y")).Key()
-		}
-		r.check("X3", "SVG.Save|canvas-is-the-drawing-extent", sfn.Pos(), okS, "Start(max.X−min.X, max.Y−min.Y)")
-		okL := len(ln) == 1
-		detail := ""
-		if okL {
-			a := ln[0].Args
-			get := func(i int) *Term { t, _ := a[i].(*Term); return t }
-			x0, y0, x1, y1 := get(1), get(2), get(3), get(4)
-			if x0 == nil || y0 == nil || x1 == nil || y1 == nil {
-				okL = false
-			} else {
-				// the i-th pair
-				var idx string
-				for _, at := range atomList(x0) {
-					if strings.HasPrefix(at, "s.p0s[") && strings.HasSuffix(at, "].X") {
-						idx = strings.TrimSuffix(strings.TrimPrefix(at, "s.p0s["), "].X")
-					}
-				}
-				p0 := func(c string) *Term { return A("s.p0s[" + idx + "]." + c) }
-				p1 := func(c string) *Term { return A("s.p1s[" + idx + "]." + c) }
-				okL = idx != "" &&
-					x0.Key() == Sub(p0("X"), A("s.min.X")).Key() && y0.Key() == Sub(A("s.max.Y"), p0("Y")).Key() &&
-					x1.Key() == Sub(p1("X"), A("s.min.X")).Key() && y1.Key() == Sub(A("s.max.Y"), p1("Y")).Key()
-				detail = fmt.Sprintf("Line(%s, %s, %s, %s)", x0.Key(), y0.Key(), x1.Key(), y1.Key())
-			}
-		}
-		r.check("X3", "SVG.Save|origin-shift-and-y-flip", sfn.Pos(), okL, "Line(p0.X−min.X, max.Y−p0.Y, p1.X−min.X, max.Y−p1.Y) for the same stored pair; "+shortKey(detail, 260))
-	}
 	lfn := ctx.ssaFunc("render", "(*SVG).Line")
-	if lfn == nil {
-		r.undecided("X3", "SVG.Line", 0, "not found")
+	if sfn == nil || lfn == nil {
+		r.undecided("X3", "SVG.Save/SVG.Line", 0, "not found")
 		return
 	}
-	ev := newEval(ctx)
-	_, st := ev.evalRoot(lfn)
+	recv := paramName(lfn, 0)
+	pa, pb := paramName(lfn, 1), paramName(lfn, 2)
+	srecv := paramName(sfn, 0)
+
+	// ---- what Line stores: every append of the call, as a map from storage pattern
+	// (field[*]<leaf>) to the term stored there (over the endpoints pa, pb)
+	evL := newEval(ctx)
+	_, stL := evL.evalRoot(lfn)
+	stored := map[string]*Term{}
+	bases := map[string]bool{}
+	perAppend := true
+	for _, e := range eventsOf(evL, "append") {
+		base := strings.TrimPrefix(valKey(e.Args[0]), "sym:")
+		if !strings.HasPrefix(base, recv+".") {
+			continue
+		}
+		els := appendedVals(e)
+		if len(els) != 1 {
+			perAppend = false
+		}
+		for _, el := range els {
+			m := map[string]*Term{}
+			leafTerms("", el, m)
+			for k, t := range m {
+				stored[strings.TrimPrefix(base, recv+".")+"[*]"+k] = t
+			}
+		}
+		bases[strings.TrimPrefix(base, recv+".")] = true
+	}
+	// both endpoints, both coordinates, are stored on every call
+	need := map[string]bool{pa + ".X": false, pa + ".Y": false, pb + ".X": false, pb + ".Y": false}
+	for _, t := range stored {
+		if _, ok := need[t.Key()]; ok {
+			need[t.Key()] = true
+		}
+	}
+	allStored := perAppend && len(bases) > 0
+	for _, v := range need {
+		if !v {
+			allStored = false
+		}
+	}
+	r.check("X3", "SVG.Line|endpoints-stored-in-step", lfn.Pos(), allStored, fmt.Sprintf("every call appends one entry holding both end points (storage: %v)", sortedKeys(bases)))
+
+	// ---- what Save draws, with the storage read back through that map
+	evS := newEval(ctx)
+	evS.evalRoot(sfn)
+	stv := eventsOf(evS, "float.SVG).Start")
+	ln := eventsOf(evS, "float.SVG).Line")
+	okS := len(stv) == 1
+	if okS {
+		w, _ := stv[0].Args[1].(*Term)
+		h, _ := stv[0].Args[2].(*Term)
+		okS = w != nil && h != nil && equalRat(w, Sub(A(srecv+".max.X"), A(srecv+".min.X"))) && equalRat(h, Sub(A(srecv+".max.Y"), A(srecv+".min.Y")))
+	}
+	r.check("X3", "SVG.Save|canvas-is-the-drawing-extent", sfn.Pos(), okS, "Start(max.X−min.X, max.Y−min.Y)")
+	okL := len(ln) == 1
+	detail := ""
+	if okL {
+		idxSeen := map[string]bool{}
+		back := func(t *Term) *Term {
+			return rebuild(t, func(x *Term) *Term {
+				if x.Op != "a" || !strings.HasPrefix(x.S, srecv+".") {
+					return nil
+				}
+				rest := strings.TrimPrefix(x.S, srecv+".")
+				for base := range bases {
+					if !strings.HasPrefix(rest, base+"[") {
+						continue
+					}
+					// base[idx]leaf
+					depth, end := 0, -1
+					for i := len(base); i < len(rest); i++ {
+						if rest[i] == '[' {
+							depth++
+						} else if rest[i] == ']' {
+							depth--
+							if depth == 0 {
+								end = i
+								break
+							}
+						}
+					}
+					if end < 0 {
+						continue
+					}
+					idxSeen[rest[len(base)+1:end]] = true
+					if st, ok := stored[base+"[*]"+rest[end+1:]]; ok {
+						return st
+					}
+				}
+				return nil
+			})
+		}
+		a := ln[0].Args
+		var got [4]*Term
+		for i := 0; i < 4; i++ {
+			t, _ := a[i+1].(*Term)
+			if t == nil {
+				okL = false
+				break
+			}
+			got[i] = back(t)
+		}
+		if okL {
+			want := [4]*Term{Sub(A(pa+".X"), A(srecv+".min.X")), Sub(A(srecv+".max.Y"), A(pa+".Y")), Sub(A(pb+".X"), A(srecv+".min.X")), Sub(A(srecv+".max.Y"), A(pb+".Y"))}
+			for i := range want {
+				if !equalRat(got[i], want[i]) {
+					okL = false
+				}
+			}
+			okL = okL && len(idxSeen) == 1
+			detail = fmt.Sprintf("Line(%s, %s, %s, %s), storage indices %v", got[0].Key(), got[1].Key(), got[2].Key(), got[3].Key(), sortedKeys(idxSeen))
+		}
+	}
+	r.check("X3", "SVG.Save|origin-shift-and-y-flip", sfn.Pos(), okL, "Line(p0.X−min.X, max.Y−p0.Y, p1.X−min.X, max.Y−p1.Y) for one stored entry (read back through what Line stores); "+shortKey(detail, 260))
+
+	// ---- the running extent
 	var sv Val
-	for o, v := range st.mem {
-		if o.name == "s" {
+	for o, v := range stL.mem {
+		if o.name == recv {
 			sv = v
 		}
 	}
@@ -367,26 +544,26 @@ func checkSVG(ctx *Ctx, r *Report) {
 	mm := map[string]*Term{}
 	leafTerms("min", mn, mm)
 	leafTerms("max", mx, mm)
-	first := Cmp("==", A("len(s.p0s)"), K(0))
-	okFold, okFirst := true, true
-	detail := ""
+	// the "first line" test: the storage is still empty
+	var first *Term
+	for _, c := range evL.BranchConds {
+		if c.S == "==" && (c.Args[0].IsZero() || c.Args[1].IsZero()) && strings.Contains(c.Key(), "len("+recv+".") {
+			first = c
+		}
+	}
+	okFold, okFirst := true, first != nil
+	detail = ""
 	for _, c := range []string{"X", "Y"} {
 		for _, w := range []struct{ f, fn string }{{"min", "math.Min"}, {"max", "math.Max"}} {
 			t := mm[w.f+"."+c]
-			if t == nil {
+			if t == nil || first == nil {
 				okFold = false
 				continue
-			}
-			hasFirst := false
-			for _, ca := range condAtoms(t) {
-				if ca.Key() == first.Key() {
-					hasFirst = true
-				}
 			}
 			later := assume(t, map[string]bool{first.Key(): false})
 			ls := map[string]bool{}
 			minLeaves(later, w.fn, ls)
-			want := map[string]bool{"s." + w.f + "." + c: true, "p0." + c: true, "p1." + c: true}
+			want := map[string]bool{recv + "." + w.f + "." + c: true, pa + "." + c: true, pb + "." + c: true}
 			if fmt.Sprint(sortedKeys(ls)) != fmt.Sprint(sortedKeys(want)) {
 				okFold = false
 				detail += fmt.Sprintf(" %s.%s folds %v;", w.f, c, sortedKeys(ls))
@@ -394,8 +571,8 @@ func checkSVG(ctx *Ctx, r *Report) {
 			fst := assume(t, map[string]bool{first.Key(): true})
 			fs := map[string]bool{}
 			minLeaves(fst, w.fn, fs)
-			wantF := map[string]bool{"p0." + c: true, "p1." + c: true}
-			if !hasFirst || fmt.Sprint(sortedKeys(fs)) != fmt.Sprint(sortedKeys(wantF)) {
+			wantF := map[string]bool{pa + "." + c: true, pb + "." + c: true}
+			if fmt.Sprint(sortedKeys(fs)) != fmt.Sprint(sortedKeys(wantF)) {
 				okFirst = false
 				detail += fmt.Sprintf(" first line: %s.%s = %v;", w.f, c, sortedKeys(fs))
 			}
@@ -403,27 +580,6 @@ func checkSVG(ctx *Ctx, r *Report) {
 	}
 	r.check("X3", "SVG.Line|both-endpoints-folded-into-min-and-max", lfn.Pos(), okFold, "min/max are updated with both endpoints of every line;"+detail)
 	r.check("X3", "SVG.Line|first-line-initialises-the-extent", lfn.Pos(), okFirst, "the running box starts from the first line's endpoints, not from the zero vector (a drawing away from the origin would be shifted and its canvas enlarged);"+detail)
-	// appended in step
-	var a0, a1 bool
-	for _, e := range eventsOf(ev, "append") {
-		k0, k1 := valKey(e.Args[0]), valKey(e.Args[1])
-		if strings.Contains(k0, "s.p0s") {
-			if sl, ok := e.Args[1].(*SliceV); ok && sl.Arr != nil {
-				if ag, ok := e.State.mem[sl.Arr].(*Agg); ok && len(ag.Elems) == 1 && elemPath(ag.Elems[0]) == "p0" {
-					a0 = true
-				}
-			}
-		}
-		if strings.Contains(k0, "s.p1s") {
-			if sl, ok := e.Args[1].(*SliceV); ok && sl.Arr != nil {
-				if ag, ok := e.State.mem[sl.Arr].(*Agg); ok && len(ag.Elems) == 1 && elemPath(ag.Elems[0]) == "p1" {
-					a1 = true
-				}
-			}
-		}
-		_ = k1
-	}
-	r.check("X3", "SVG.Line|endpoints-stored-in-step", lfn.Pos(), a0 && a1, "p0 appended to p0s and p1 to p1s on every call")
 	// the sink passes (l[0], l[1])
 	if g := closureOf(ctx, "render", "writeSVG"); g != nil {
 		ev := newEval(ctx, "Line", "Save")
